@@ -9,7 +9,8 @@ CLAIM = {
          "default handlers; z3 proves len/keys/iteration/membership/values/items/lookup by number, name and hardware address equal a reference map and "
          "that the original port list is unchanged. Statistics replies for two requests (symbolic xids, may alias), split into 1..3 parts and "
          "interleaved with barrier/echo messages, must raise each aggregated event exactly once, after the final part, with exactly that request's "
-         "entries in order.",
+         "entries in order."
+         " Also: a further features reply on the live connection, raw statistics events halted by a nexus listener, notifications coalesced with the barrier reply, and an early notification that restores the features-reply description.",
  'note': "Trusted: CPython, z3, symx proxies/shims incl. the equality-forking SymSet/SymDict containers, the reference map in props/C17.py. Port names are "
          "concrete distinct strings per port slot; hardware addresses are assumed pairwise distinct (lookup by MAC is otherwise ambiguous).",
 }
